@@ -144,7 +144,8 @@ class WireEnd(ByteStream):
 def gen_case(seed, tier, prop="C17"):
     rng = random.Random(seed)
     big = tier == "thorough"
-    sizes = [0, 1, 5, 100, 3000, 16384, 17000, 40000] if big else [0, 1, 5, 100, 3000, 17000]
+    # 70000: one send() produces more than 64 KiB of ciphertext (five TLS records) in a single flush
+    sizes = [0, 1, 5, 100, 3000, 16384, 17000, 40000, 70000, 140000] if big else [0, 1, 5, 100, 3000, 17000, 70000]
 
     def msgs():
         return [rng.choice(sizes) for _ in range(rng.randint(0, 4 if big else 3))]
@@ -160,14 +161,12 @@ def gen_case(seed, tier, prop="C17"):
     duplex = rng.random() < 0.4
     c2s = msgs() or [1]
     s2c = msgs() if duplex else []
-    if sum(c2s) + sum(s2c) > 20000 or big and sum(c2s) + sum(s2c) > 60000:
-        one_byte_ok = False
-    else:
-        one_byte_ok = True
+    total = sum(c2s) + sum(s2c)
     f1, f2 = frags(), frags()
-    if not one_byte_ok:
-        f1 = [max(f, 100) for f in f1]
-        f2 = [max(f, 100) for f in f2]
+    if total > 20000:
+        floor = 100 if total < 60000 else 1000
+        f1 = [max(f, floor) for f in f1]
+        f2 = [max(f, floor) for f in f2]
     fault = rng.choice(["none", "none", "cut", "cut", "cut", "flip"])
     cut = None
     flip = None
@@ -180,7 +179,9 @@ def gen_case(seed, tier, prop="C17"):
             "c2s": c2s, "s2c": s2c, "recv_sizes": [rng.choice([1, 7, 100, 65536]) for _ in range(3)],
             "frags": {"c2s": f1, "s2c": f2},
             "delays": {"c2s": [rng.choice([0, 0, 0.125]) for _ in range(3)], "s2c": [rng.choice([0, 0, 0.125]) for _ in range(3)]},
-            "cut": cut, "flip": flip, "eager": rng.random() < 0.2, "sched_seed": rng.getrandbits(32)}
+            "cut": cut, "flip": flip, "eager": rng.random() < 0.2, "sched_seed": rng.getrandbits(32),
+            # the writer stays idle (no close, no further send) until the peer has read everything it was sent
+            "wait_ack": rng.random() < 0.5}
 
 
 def payload(direction, sizes):
@@ -219,12 +220,17 @@ class TLSRun:
         std = c["std"]
         sent = {"c2s": b"".join(payload("c2s", c["c2s"])), "s2c": b"".join(payload("s2c", c["s2c"]))}
         rs = c["recv_sizes"]
+        if sum(c["c2s"]) + sum(c["s2c"]) > 20000:
+            rs = [max(m, 100) for m in rs]
+        got_all = {"c2s": Event(), "s2c": Event()}
         Cancelled = get_cancelled_exc_class()
 
         async def reader(name, stream, direction, expect_len, to_end):
             got = bytearray()
             k = 0
             end = None
+            if expect_len == 0:
+                got_all[direction].set()
             try:
                 while to_end or len(got) < expect_len:
                     m = rs[k % len(rs)]
@@ -233,18 +239,34 @@ class TLSRun:
                     if not d or len(d) > m:
                         self.v("chunk", f"{name}: receive({m}) returned {len(d)} bytes")
                     got += d
+                    if len(got) >= expect_len:
+                        got_all[direction].set()
                     if record:
                         self.h.rec("recv", name, len(d))
             except EndOfStream:
                 end = "EOS"
             except BrokenResourceError:
                 end = "BROKEN"
+                # a truncation that has been reported must not turn into a clean end on the next call
+                again = []
+                for _ in range(2):
+                    try:
+                        await stream.receive(1)
+                        again.append("DATA")
+                    except EndOfStream:
+                        again.append("EOS")
+                    except Cancelled:
+                        raise
+                    except BaseException as e:
+                        again.append(type(e).__name__)
+                res[direction + "_again"] = again
             except Cancelled:
                 raise
             except ssl.SSLError as e:
                 end = "SSLERROR:" + type(e).__name__
             except BaseException as e:
                 end = "OTHER:" + type(e).__name__
+            got_all[direction].set()
             res[direction] = {"got": bytes(got), "end": end}
 
         async def side(name, end_, wrap_kw, out_dir, in_dir, first_closer):
@@ -254,6 +276,7 @@ class TLSRun:
                 raise
             except BaseException as e:
                 res[name + "_wrap"] = type(e).__name__
+                got_all[in_dir].set()       # nobody will ever read that direction
                 await end_.aclose()
                 return
             if record:
@@ -275,7 +298,13 @@ class TLSRun:
                         except BaseException as e:
                             res[name + "_send_err"] = type(e).__name__
                             break
+                    else:
+                        if c.get("wait_ack") and c[out_dir] and (duplex or name == "client"):
+                            # stay idle until the peer's reader has everything (or has ended): nothing but the send()
+                            # calls themselves may be needed to get the bytes across
+                            await got_all[out_dir].wait()
             finally:
+                got_all[in_dir].set()
                 try:
                     await stream.aclose()
                 except Cancelled:
@@ -381,6 +410,10 @@ class TLSRun:
                 elif std and end == "EOS":
                     self.v("truncation_as_eof", f"{d}: the transport was truncated after {cuts.get(d)} ciphertext bytes but the "
                                                 f"{reader_name} saw a clean EndOfStream after {len(got)}/{len(sent)} bytes")
+                elif std and end == "BROKEN" and "EOS" in res.get(d + "_again", ()):
+                    self.v("truncation_as_eof", f"{d}: the truncation (after {cuts.get(d)} ciphertext bytes) was reported as "
+                                                f"BrokenResourceError, but the following receive() calls ended with "
+                                                f"{res[d + '_again']}: a clean EndOfStream after a truncation")
                 elif not std and end not in ("EOS", None) and not end.startswith("SSLERROR"):
                     self.v("nonstd_end", f"{d}: standard_compatible=False, truncated transport reported as {end}")
             elif not wrap_failed and not cuts and not flips:
